@@ -11,7 +11,7 @@
   (C09 / C10 treat those) and not a boolean-*string* attribute (`spellcheck`, whose value is normalised to
   "true"/"false" by the store).
 -/
-import AHP.Lemmas.AttrsMap
+import AHP.Lemmas.AttrsCopy
 namespace AHP.C08
 open AHP AHP.Attrs
 
@@ -315,6 +315,256 @@ theorem clone_lookup (T : Tables) {e : El} (h : DictInv e) {k : Str} (hc : k ≠
 /-- taking the copy reads `getAttributesList()` of the original: it synchronises it and changes nothing else -/
 theorem clone_reads_only (T : Tables) (e : El) : (clone T e).2 = handleClassAttr e := rfl
 
+/-- C08b: in every reachable state the stored values are normalised: what is kept under a boolean-string key
+    (`spellcheck`) is `convertToBooleanString` of itself (invariant `BinStrInv` per operation, induction over
+    histories) -/
+theorem reach_normalised {T : Tables} {e : El} (h : Reach T e) : BinStrInv T e := by
+  obtain ⟨tag, sc, attrs, ops, rfl⟩ := h
+  exact binStrInv_run T ops (binStrInv_mk T tag sc attrs)
+
+/-! ### C08e, list level — the list of a constructed element and of a copy, as LISTS -/
+
+/-- Creation: the list of `AdvancedTag(tag, l)` for valid, lower-case, pairwise distinct names, entry by entry:
+    the entries of `l` in order — boolean-string values normalised, the style value re-rendered through the
+    style object (an empty style dropped) — except that `class` is listed last (its key is only materialised
+    by the first synchronising read). -/
+theorem created_list (T : Tables) (tag : Str) (sc : Bool) (l : List (Str × Option Str)) (hg : GoodKeys l) :
+    viewList (mk T tag sc l) = l.filterMap (mkView T) ++
+      (match aget classK l with
+       | some v => if (words (v.getD [])).isEmpty then [] else [(classK, some (joinWith [' '] (words (v.getD []))))]
+       | none => []) :=
+  viewList_mk T tag sc l hg
+
+/-- C08e, list level. The list of a copy (`cloneNode`, `copy.copy`, `copy.deepcopy`, unpickling,
+    `eval(repr(tag))`) is the original's list with the `class` entry moved to the end — every other entry,
+    `style` included, keeps its position and its value. The hypotheses on the class names (no white space: C09's
+    domain, `clean_run`) and on the style map (round-trippable: C10's `reach_roundtrippable`) are what makes the
+    *values* under `class` / `style` survive the constructor. -/
+theorem clone_list (T : Tables) {e : El} (hr : Reach T e) (hc : ∀ w ∈ e.cls, CleanName w) (hs : StyRT e.sty) :
+    viewList (clone T e).1 = moveLast classK (viewList e) :=
+  viewList_clone T (reach_inv hr) (reach_normalised hr) hc hs
+
+/-- the `class` key is listed exactly when there is a class name -/
+theorem class_listed_iff (e : El) : classK ∈ akeys (viewList e) ↔ e.cls ≠ [] := by
+  rw [← ahas_iff_mem]
+  unfold ahas
+  rw [viewList_class]
+  cases h : e.cls with
+  | nil => simp
+  | cons a r => simp
+
+/-- C08e, list level, the precise condition: the copy's list equals the original's list AS A LIST exactly when
+    the original has no class name or lists `class` last. (With a `class` key materialised earlier — a reader
+    synchronised, then another attribute was added — the copy lists the same pairs in another order:
+    per-key equality `clone_lookup` still holds, list equality does not.) -/
+theorem clone_list_eq_iff (T : Tables) {e : El} (hr : Reach T e) (hc : ∀ w ∈ e.cls, CleanName w) (hs : StyRT e.sty) :
+    viewList (clone T e).1 = viewList e ↔ (e.cls = [] ∨ (akeys (viewList e)).getLast? = some classK) := by
+  rw [clone_list T hr hc hs]
+  have hn : (akeys (viewList e)).Nodup := (stored_names hr).1
+  rw [moveLast_eq_self_iff hn classK, class_listed_iff]
+  constructor
+  · rintro (h | h)
+    · exact Or.inl (Classical.not_not.mp h)
+    · exact Or.inr h
+  · rintro (h | h)
+    · exact Or.inl (fun hne => hne h)
+    · exact Or.inr h
+
+/-- per key, every key other than class / style (boolean-string keys included): the copy lists the value of the
+    original -/
+theorem clone_lookup_all (T : Tables) {e : El} (hr : Reach T e) {k : Str} (hc : k ≠ classK) (hs : k ≠ styleK) :
+    aget k (viewList (clone T e).1) = aget k (viewList e) := by
+  have h := reach_inv hr
+  have hb := reach_normalised hr
+  have hg := goodKeys_of_sync h (akeys_attrsList e)
+  unfold clone
+  simp only
+  rw [viewList_ordinary (dictInv_mk T _ _ _) hc hs, mk_rawLookup T _ _ _ hg hc hs]
+  show Option.map (normVal T k) (aget k (viewList e)) = _
+  cases hg2 : aget k (viewList e) with
+  | none => rfl
+  | some v =>
+    have hraw := hg2
+    rw [viewList_ordinary h hc hs] at hraw
+    unfold rawLookup at hraw
+    split at hraw
+    · next w hw =>
+      have : w = v := Option.some.inj hraw
+      subst this
+      simp only [Option.map_some, hb k w hw]
+    · cases hraw
+
+/-! ### C08a/d for boolean-string keys (`spellcheck`): the stored value is `convertToBooleanString` of the input -/
+
+/-- a boolean-string key (`TAG_ITEM_BINARY_ATTRIBUTES_STRING_ATTR`), any spelling -/
+structure BoolStr (T : Tables) (k : Str) : Prop where
+  notClass : lower k ≠ classK
+  notStyle : lower k ≠ styleK
+  isBinStr : T.binStr.contains (lower k) = true
+
+/-- the writers store `convertToBooleanString(value)` — `'true'` / `'false'` — under the lower-cased name, and
+    that is what every list-shaped view shows -/
+theorem boolstr_stored (T : Tables) {e : El} (h : DictInv e) {k : Str} (hv : validName k = true) (hk : BoolStr T k)
+    (v : Option Str) :
+    aget (lower k) (viewList (mapSet T k v e).2) = some (some (boolString v)) ∧
+    aget (lower k) (viewList (setAttribute T k v e).2) = some (some (boolString v)) := by
+  have h1 := mapSet_listed T h hv hk.notClass hk.notStyle v
+  unfold normVal at h1
+  rw [hk.isBinStr] at h1
+  refine ⟨h1, ?_⟩
+  unfold setAttribute
+  simp only [hv, Bool.not_true, Bool.false_eq_true, if_false]
+  exact h1
+
+/-- in every reachable state the value listed under a boolean-string key is `'true'` or `'false'` -/
+theorem boolstr_listed {T : Tables} {e : El} (hr : Reach T e) {k : Str} (hk : BoolStr T k) {v : Option Str}
+    (hv : aget (lower k) (viewList e) = some v) : v = some strTrue ∨ v = some strFalse := by
+  have := binStr_listed (reach_inv hr) (reach_normalised hr) hk.notClass hk.notStyle hk.isBinStr hv
+  rcases boolString_cases v with h | h <;> rw [h] at this
+  · exact Or.inl this
+  · exact Or.inr this
+
+/-- `attributes[k]`: the listed value — and `'false'`, not `None`, when the key is not listed (the one view that
+    answers for an absent key; `in`, `get`, `getAttribute`, `hasAttribute` and the node map report it absent) -/
+theorem boolstr_getitem (T : Tables) {e : El} (hr : Reach T e) {k : Str} (hk : BoolStr T k) :
+    getitem T k e = match aget (lower k) (viewList e) with
+      | none => .str strFalse
+      | some v => pyOfOpt v :=
+  getitem_binStr T (reach_inv hr) (reach_normalised hr) hk.notClass hk.notStyle hk.isBinStr
+
+/-- `attributes.get(k, default)` -/
+theorem boolstr_mapGet (T : Tables) {e : El} (hr : Reach T e) {k : Str} (hk : BoolStr T k) (d : PyVal) :
+    (mapGet T k d e).1 = match aget (lower k) (viewList e) with
+      | none => d
+      | some v => pyOfOpt v :=
+  mapGet_listed T (reach_inv hr) (reach_normalised hr) hk.notClass hk.notStyle d
+
+/-- `getAttribute(k, default)` -/
+theorem boolstr_getAttribute (T : Tables) {e : El} (hr : Reach T e) {k : Str} (hk : BoolStr T k)
+    (hb : T.binary.contains k = false) (d : PyVal) :
+    (getAttribute T k d e).1 = match aget (lower k) (viewList e) with
+      | none => d
+      | some v => pyOfOpt v := by
+  unfold getAttribute
+  rw [hb]
+  exact boolstr_mapGet T hr hk d
+
+/-- the DOM node under the name -/
+theorem boolstr_domItem (T : Tables) {e : El} (hr : Reach T e) {k : Str} (hk : BoolStr T k) :
+    domItem T k e = (aget (lower k) (viewList e)).map (fun v => (lower k, pyOfOpt v)) := by
+  unfold domItem
+  simp only
+  have hk' : BoolStr T (lower k) := ⟨by rw [lower_idem]; exact hk.notClass, by rw [lower_idem]; exact hk.notStyle,
+    by rw [lower_idem]; exact hk.isBinStr⟩
+  rw [contains_proj (reach_inv hr), boolstr_getitem T hr hk', lower_idem]
+  rcases aget (lower k) (viewList e) with _ | v <;> rfl
+
+/-- dot access of a boolean-string linked name (`tag.spellcheck`): True exactly when `'true'` is listed -/
+theorem boolstr_dotGet (T : Tables) {e : El} (hr : Reach T e) {n : Str} {L : Link} (hn : n ≠ classNameK)
+    (hl : aget n T.links = some L) (hs : L.special = false) (hbs : L.binStr = true)
+    (hk : BoolStr T L.attr) (hnb : T.binary.contains L.attr = false) :
+    (dotGet T n e).1 = some (.bool (decide (aget (lower L.attr) (viewList e) = some (some strTrue)))) := by
+  unfold dotGet
+  simp only [hn, if_false, hl, hs, hbs, Bool.false_eq_true, if_true]
+  congr 2
+  rw [boolstr_getAttribute T hr hk hnb]
+  cases hg : aget (lower L.attr) (viewList e) with
+  | none => rfl
+  | some v =>
+    rcases boolstr_listed hr hk hg with h | h <;> subst h
+    · simp [pyOfOpt, boolOfString_true]
+    · have : ¬ (some (some strFalse) = some (some strTrue)) := by decide
+      simp [pyOfOpt, boolOfString_false, this]
+
+/-- the rendered start tag carries `k="true"` / `k="false"` and reads back unchanged -/
+theorem boolstr_rendered (T : Tables) {e : El} (hr : Reach T e) {k : Str} (hk : BoolStr T k) :
+    aget (lower k) (readBack (startTagItems T e).1) = aget (lower k) (viewList e) := by
+  cases hg : aget (lower k) (viewList e) with
+  | none =>
+    rw [readBack_lookup T (reach_inv hr) hk.notClass hk.notStyle, hg]; rfl
+  | some v =>
+    rcases boolstr_listed hr hk hg with h | h <;> subst h
+    · exact rendered_value T (reach_inv hr) hk.notClass hk.notStyle (Or.inl (by decide)) (by decide) hg
+    · exact rendered_value T (reach_inv hr) hk.notClass hk.notStyle (Or.inl (by decide)) (by decide) hg
+
+/-- … and the element obtained by re-parsing the start tag lists the same value under the key; so does a copy
+    (`clone_lookup_all`) -/
+theorem boolstr_reparse (T : Tables) {e : El} (hr : Reach T e) {k : Str} (hk : BoolStr T k) :
+    aget (lower k) (viewList (reparse T e).1) = aget (lower k) (viewList e) := by
+  have h := reach_inv hr
+  have hg := goodKeys_of_sync h (akeys_readBack T e)
+  have hrb := boolstr_rendered T hr hk
+  unfold reparse
+  simp only
+  rw [viewList_ordinary (dictInv_mk T _ _ _) hk.notClass hk.notStyle,
+      mk_rawLookup T _ _ _ hg hk.notClass hk.notStyle, hrb]
+  cases hg2 : aget (lower k) (viewList e) with
+  | none => rfl
+  | some v =>
+    have := binStr_listed h (reach_normalised hr) hk.notClass hk.notStyle hk.isBinStr hg2
+    simp only [Option.map_some, normVal, hk.isBinStr, if_true]
+    rw [← this]
+
+/-! ### dot access of names with a special-value rule: never fails in the store, and is the rule on the listed value -/
+
+/-- `dotGet` declines (`none`: "see the rule") exactly for the linked names that have a special-value rule;
+    every other linked name is answered by `dotGet_plain` / `dotGet_boolean` / `boolstr_dotGet` -/
+theorem dotGet_declines_iff (T : Tables) (e : El) {n : Str} {L : Link} (hn : n ≠ classNameK)
+    (hl : aget n T.links = some L) : (dotGet T n e).1 = none ↔ L.special = true := by
+  unfold dotGet
+  simp only [hn, if_false, hl]
+  cases L.special with
+  | true => simp
+  | false =>
+    simp only [Bool.false_eq_true, if_false]
+    split
+    · simp
+    · split <;> simp
+
+/-- For a name with a special-value rule `R` (`tabIndex`, `span`, `colSpan`, `rowSpan`, `hspace`, `vspace`,
+    `maxLength`, `size`, `cols`, `rows`, `crossOrigin`, `autocomplete`, `method`, `sandbox`, `kind`), reading an
+    attribute that is neither class / style nor boolean: the dot read is the rule's conversion applied to the
+    listed value; when the attribute is not listed it is the guard's answer (`maxLength`: −1) or the converted
+    default. The conversion itself (`R.conv`, `R.onDefault`) is C19's. `dotGetSpecial` is a total function: the
+    store never raises on such a read. -/
+theorem dotGet_special (T : Tables) {ρ : Type} {e : El} (hr : Reach T e) (R : SpecialRule ρ)
+    (hc : lower R.attr ≠ classK) (hs : lower R.attr ≠ styleK) (hnb : T.binary.contains R.attr = false) :
+    (dotGetSpecial T R e).1 = match aget (lower R.attr) (viewList e) with
+      | none => R.guard.getD R.onDefault
+      | some v => R.conv (pyOfOpt v) := by
+  have h := reach_inv hr
+  have hb := reach_normalised hr
+  have hread : (getAttributeOpt T R.attr e).1 = (aget (lower R.attr) (viewList e)).map pyOfOpt := by
+    unfold getAttributeOpt
+    rw [hnb]
+    exact mapGetOpt_listed T h hb hc hs
+  unfold dotGetSpecial
+  cases hg : R.guard with
+  | none =>
+    simp only [hread]
+    rcases aget (lower R.attr) (viewList e) with _ | v <;> rfl
+  | some g =>
+    simp only [hread, hasAttribute_proj h]
+    rcases aget (lower R.attr) (viewList e) with _ | v <;> rfl
+
+/-- such a read only synchronises: the state afterwards is the state itself or the state after `_handleClassAttr` -/
+theorem dotGet_special_reads_only (T : Tables) {ρ : Type} (R : SpecialRule ρ) (e : El) :
+    (dotGetSpecial T R e).2 = e ∨ (dotGetSpecial T R e).2 = handleClassAttr e := by
+  unfold dotGetSpecial
+  cases R.guard with
+  | none => exact getAttributeOpt_snd T R.attr e
+  | some g =>
+    simp only
+    split
+    · exact getAttributeOpt_snd T R.attr e
+    · exact Or.inl rfl
+
+/-- the reader with a symbolic default used by the rules is the reader of the views: `getAttribute(k, d)` is
+    its answer with `d` filled in, and leaves the same state -/
+theorem getAttribute_symbolic_default (T : Tables) (k : Str) (d : PyVal) (e : El) :
+    getAttribute T k d e = (((getAttributeOpt T k e).1).getD d, (getAttributeOpt T k e).2) :=
+  getAttribute_eq_opt T k d e
+
 /-! ### non-vacuity -/
 
 def T0 : Tables := { binary := [['c', 'h', 'e', 'c', 'k', 'e', 'd']], binStr := [], links := [] }
@@ -329,5 +579,67 @@ example : viewList (run T0 (mk T0 ['d', 'i', 'v'] false [])
     = [(kFoo, some ['v']), (kChecked, some [])] := by decide
 
 example : (step T0 (mk T0 ['d', 'i', 'v'] false []) (.mapSet ['a', ' ', 'b'] (some ['x']))).1 = .keyError := by decide
+
+/-! non-vacuity of the list-level copy theorems, boolean-string keys, special rules -/
+
+def T1 : Tables :=
+  { binary := [kChecked], binStr := ["spellcheck".toList],
+    links := [("spellcheck".toList, { attr := "spellcheck".toList, special := false, validated := false, binStr := true, bin := false, event := false }),
+              ("tabIndex".toList, { attr := "tabindex".toList, special := true, validated := false, binStr := false, bin := false, event := false })] }
+
+/-- `className = 'a'`, a synchronising read, then `setAttribute('foo', 'v')`: `class` is materialised first -/
+def eClassFirst : El := run T1 (mk T1 "div".toList false []) [.className (some "a".toList), .sync, .setAttr kFoo (some ['v'])]
+/-- the same without the read in between: `class` is materialised last -/
+def eClassLast : El := run T1 (mk T1 "div".toList false []) [.className (some "a".toList), .setAttr kFoo (some ['v'])]
+
+example : viewList eClassFirst = [(classK, some "a".toList), (kFoo, some ['v'])] := by decide
+/-- the hypotheses of `clone_list` / `clone_list_eq_iff` hold for both elements -/
+example : Reach T1 eClassFirst ∧ (∀ w ∈ eClassFirst.cls, CleanName w) ∧ StyRT eClassFirst.sty := by
+  refine ⟨⟨_, _, _, _, rfl⟩, ?_, styRT_nil⟩
+  have h : eClassFirst.cls = ["a".toList] := by decide
+  intro w hw
+  rw [h] at hw
+  simp only [List.mem_singleton] at hw
+  subst hw
+  exact ⟨by decide, by decide⟩
+/-- the counter-example of the complementary case: `class` listed first — the copy lists it last -/
+example : viewList (clone T1 eClassFirst).1 = [(kFoo, some ['v']), (classK, some "a".toList)] := by decide
+example : viewList (clone T1 eClassFirst).1 ≠ viewList eClassFirst := by decide
+example : ¬ (eClassFirst.cls = [] ∨ (akeys (viewList eClassFirst)).getLast? = some classK) := by decide
+/-- `class` listed last: the lists agree -/
+example : viewList (clone T1 eClassLast).1 = viewList eClassLast := by
+  have hr : Reach T1 eClassLast := ⟨_, _, _, _, rfl⟩
+  have hs : StyRT eClassLast.sty := styRT_nil
+  have h : eClassLast.cls = ["a".toList] := by decide
+  have hc : ∀ w ∈ eClassLast.cls, CleanName w := by
+    intro w hw
+    rw [h] at hw
+    simp only [List.mem_singleton] at hw
+    subst hw
+    exact ⟨by decide, by decide⟩
+  exact (clone_list_eq_iff T1 hr hc hs).mpr (Or.inr (by decide))
+
+/-- `created_list` on a concrete list: `class` given first is listed last, `spellcheck` is normalised -/
+example : GoodKeys [(classK, some "a  b".toList), ("spellcheck".toList, some "No".toList), (kFoo, none)] := ⟨by decide, by decide⟩
+example : viewList (mk T1 "div".toList false [(classK, some "a  b".toList), ("spellcheck".toList, some "No".toList), (kFoo, none)])
+    = [("spellcheck".toList, some strTrue), (kFoo, none), (classK, some "a b".toList)] := by decide
+
+example : BoolStr T1 "SpellCheck".toList := ⟨by decide, by decide, by decide⟩
+/-- `setAttribute('spellcheck', 'YES')` stores `'true'`, `'0'` stores `'false'` -/
+example : viewList (setAttribute T1 "spellcheck".toList (some "YES".toList) (mk T1 "div".toList false [])).2
+    = [("spellcheck".toList, some strTrue)] := by decide
+example : viewList (setAttribute T1 "spellcheck".toList (some "0".toList) (mk T1 "div".toList false [])).2
+    = [("spellcheck".toList, some strFalse)] := by decide
+/-- `attributes['spellcheck']` on an element without the attribute: `'false'` -/
+example : getitem T1 "spellcheck".toList (mk T1 "div".toList false []) = .str strFalse := by decide
+
+/-- a rule in the shape of `tabIndex` (`convertToIntOrNegativeOneIfUnset(getAttribute('tabindex', None))`), with a
+    toy conversion standing for C19's: the value's length, −1 when unset -/
+def rTab : SpecialRule Int :=
+  { attr := "tabindex".toList, guard := none, onDefault := -1,
+    conv := fun v => match v with | .str s => s.length | _ => -1 }
+example : (dotGet T1 "tabIndex".toList (mk T1 "div".toList false [])).1 = none := by decide
+example : (dotGetSpecial T1 rTab (mk T1 "div".toList false [("tabindex".toList, some "12".toList)])).1 = 2 := by decide
+example : (dotGetSpecial T1 rTab (mk T1 "div".toList false [])).1 = -1 := by decide
 
 end AHP.C08
